@@ -79,7 +79,7 @@ def solve(
         + [
             stage2.Equation(
                 k,
-                np.asarray(v)[..., np.newaxis].astype("int32"),
+                np.asarray(v)[..., np.newaxis].astype("int64"),
                 depth1=None,
                 depth2=None,
                 desc1=f"axis {k}",
